@@ -84,7 +84,31 @@ Msg38413 == [
   UEContextReleaseComplete |-> [cls |-> 1, proc |-> Proc.UEContextRelease, crit |-> 0,
      ies |-> << <<10, 1, TRUE>>, <<85, 1, TRUE>>, <<121, 1, FALSE>>, <<32, 1, FALSE>>, <<60, 0, FALSE>>, <<19, 1, FALSE>> >>],
   UEContextReleaseRequest |-> [cls |-> 0, proc |-> Proc.UEContextReleaseRequest, crit |-> 1,
-     ies |-> << <<10, 0, TRUE>>, <<85, 0, TRUE>>, <<133, 0, FALSE>>, <<15, 1, TRUE>> >>] ]
+     ies |-> << <<10, 0, TRUE>>, <<85, 0, TRUE>>, <<133, 0, FALSE>>, <<15, 1, TRUE>> >>],
+  \* downlink: what a conformant AMF sends (the specification's own AMF is held to these tables, StgOnline!DlComplaints)
+  NGSetupResponse |-> [cls |-> 1, proc |-> Proc.NGSetup, crit |-> 0,
+     ies |-> << <<1, 0, TRUE>>, <<96, 0, TRUE>>, <<86, 1, TRUE>>, <<80, 0, TRUE>>, <<19, 1, FALSE>> >>],
+  DownlinkNASTransport |-> [cls |-> 0, proc |-> Proc.DownlinkNASTransport, crit |-> 1,
+     ies |-> << <<10, 0, TRUE>>, <<85, 0, TRUE>>, <<48, 0, FALSE>>, <<83, 1, FALSE>>, <<38, 0, TRUE>>, <<36, 1, FALSE>>, <<31, 1, FALSE>>,
+                <<110, 1, FALSE>>, <<0, 0, FALSE>> >>],
+  InitialContextSetupRequest |-> [cls |-> 0, proc |-> Proc.InitialContextSetup, crit |-> 0,
+     ies |-> << <<10, 0, TRUE>>, <<85, 0, TRUE>>, <<48, 0, FALSE>>, <<110, 0, FALSE>>, <<18, 1, FALSE>>, <<28, 0, TRUE>>, <<71, 0, FALSE>>,
+                <<0, 0, TRUE>>, <<119, 0, TRUE>>, <<94, 0, TRUE>>, <<108, 1, FALSE>>, <<36, 1, FALSE>>, <<117, 1, FALSE>>, <<31, 1, FALSE>>,
+                <<34, 1, FALSE>>, <<38, 1, FALSE>>, <<24, 0, FALSE>>, <<91, 1, FALSE>>, <<118, 1, FALSE>>, <<146, 1, FALSE>> >>],
+  PDUSessionResourceSetupRequest |-> [cls |-> 0, proc |-> Proc.PDUSessionResourceSetup, crit |-> 0,
+     ies |-> << <<10, 0, TRUE>>, <<85, 0, TRUE>>, <<83, 1, FALSE>>, <<38, 0, FALSE>>, <<74, 0, TRUE>> >>],
+  PDUSessionResourceReleaseCommand |-> [cls |-> 0, proc |-> Proc.PDUSessionResourceRelease, crit |-> 0,
+     ies |-> << <<10, 0, TRUE>>, <<85, 0, TRUE>>, <<83, 1, FALSE>>, <<38, 1, FALSE>>, <<79, 0, TRUE>> >>],
+  UEContextReleaseCommand |-> [cls |-> 0, proc |-> Proc.UEContextRelease, crit |-> 0,
+     ies |-> << <<114, 0, TRUE>>, <<15, 1, TRUE>> >>] ]
+\* messages by <<class, procedure code>>
+MsgOf(cls, proc) == {m \in DOMAIN Msg38413 : Msg38413[m].cls = cls /\ Msg38413[m].proc = proc}
+\* the IEs of a message appear in the order of the table (TS 38.413 10.3.4.? "abstract syntax error": wrong order)
+InTableOrder(t, m) ==
+   LET tab == Msg38413[m].ies
+       ies == PduIEs(t)
+       Pos(id) == IF \E r \in 1..Len(tab) : tab[r][1] = id THEN CHOOSE r \in 1..Len(tab) : tab[r][1] = id ELSE 0
+   IN \A i \in 1..Len(ies) - 1 : Pos(IeId(ies[i])) < Pos(IeId(ies[i + 1]))
 
 \* A decoded PDU is a well-formed instance of message m of TS 38.413 9.2: class, procedure code and criticality as tabulated;
 \* every mandatory IE present exactly once; every IE that is present is one the table lists (the tag schema already
